@@ -121,6 +121,44 @@ def run(ctx):
             continue
         nunw += 1
     ctx.cov["unwound_scrapes_conforming"] = nunw
+    # gather() is a function of what is registered NOW, whatever was registered, scraped and unregistered before
+    byreg = {}
+    for c in cases:
+        byreg.setdefault((c["prefix"], json.dumps(c["common"])), []).append(c)
+    pairs = []
+    for lst in byreg.values():
+        for _ in range(len(lst)):
+            a, b = rnd2.choice(lst), rnd2.choice(lst)
+            # the second content shares at least one metric name with the first, in another composition
+            if a is not b and set(a["sel"]) != set(b["sel"]) and {f["name"] for f in a["g"]} & {f["name"] for f in b["g"]}:
+                pairs.append((a, b))
+    rnd2.shuffle(pairs)
+    pairs = pairs[:80 if ctx.quick else 3000]
+    hjobs = []
+    for k, (a, b) in enumerate(pairs):
+        oa, ob = sorted(a["sel"]), sorted(b["sel"])
+        rnd2.shuffle(oa); rnd2.shuffle(ob)
+        calls = [registry_call(a["prefix"], a["common"])]
+        for i in dict.fromkeys(oa + ob):
+            calls += ctor_calls(i)
+        calls += [{"op": "register", "reg": "r", "obj": i} for i in oa] + [{"op": "gather", "reg": "r"}]
+        calls += [{"op": "unregister", "reg": "r", "obj": i} for i in oa]
+        calls += [{"op": "register", "reg": "r", "obj": i} for i in ob] + [{"op": "gather", "reg": "r"}]
+        hjobs.append({"id": k, "calls": calls})
+    hres = run_api(ctx, exe, hjobs, "hist", nproc=8)
+    nhist = 0
+    for j, (a, b) in zip(hjobs, pairs):
+        rs = hres[j["id"]]
+        rp = {"calls": j["calls"], "case": b}
+        if any("ok" not in x for x in rs):
+            ctx.violation("history:call-failed", "a call of a legal register / gather / unregister / register history failed: %s" % [x for x in rs if "ok" not in x][0], rp)
+            continue
+        why = compare(b, rs[-1]["ok"])
+        if why:
+            ctx.violation("history:" + why.split(":")[0].split(" ")[0], "registry first holding %s (scraped, then unregistered) and now holding %s: gather() does not describe the current content — %s" % (sorted(a["sel"]), sorted(b["sel"]), why), rp)
+            continue
+        nhist += 1
+    ctx.cov["register_unregister_histories_conforming"] = nhist
     # completeness and order at scale
     import bulk
     nb = 0
